@@ -31,9 +31,18 @@ type scriptedWitness struct {
 	ret     []byte // stub mode: what Update returns
 	real    feeder.Witness
 	ctl     *lspCtl // fault plan of the real witness's storage (nil: no wrapper)
+	cancelledAt time.Time // when the caller's context was cancelled (zero: not cancelled)
+	lateCalls   int       // calls that began well after that
 	logID   string
 	fetched []byte
 	br      *branch
+}
+
+// late notes a call that begins after the caller's context was cancelled (w.mu held).
+func (w *scriptedWitness) late() {
+	if !w.cancelledAt.IsZero() && time.Since(w.cancelledAt) > 400*time.Millisecond {
+		w.lateCalls++
+	}
 }
 
 func (w *scriptedWitness) failing(c byte) bool {
@@ -52,6 +61,7 @@ func (w *scriptedWitness) GetLatestCheckpoint(ctx context.Context, logID string)
 	defer w.mu.Unlock()
 	w.flush()
 	w.attempt++
+	w.late()
 	w.calls = append(w.calls, "G")
 	if logID != w.logID {
 		w.calls = append(w.calls, "WRONGID:"+logID)
@@ -90,6 +100,7 @@ func (w *scriptedWitness) GetLatestCheckpoint(ctx context.Context, logID string)
 func (w *scriptedWitness) fetchProof(ctx context.Context, from, to f_log.Checkpoint) ([][]byte, error) {
 	w.mu.Lock()
 	defer w.mu.Unlock()
+	w.late()
 	w.calls = append(w.calls, fmt.Sprintf("P:%d:%d", from.Size, to.Size))
 	if w.failing('p') {
 		w.cur[1] = "!"
@@ -110,6 +121,7 @@ func (w *scriptedWitness) Update(ctx context.Context, logID string, oldSize uint
 	if string(newCP) == string(w.fetched) {
 		cp = "="
 	}
+	w.late()
 	w.calls = append(w.calls, fmt.Sprintf("U:%d:%s:%s", oldSize, cp, hxList(proof)))
 	if logID != w.logID {
 		w.calls = append(w.calls, "WRONGID:"+logID)
@@ -199,7 +211,8 @@ func scenarioFeeder(t *traceWriter, rng *rand.Rand) {
 			fcase{-1, 5, false, p, true, 0, false}, fcase{6, 6, false, p, true, 0, false}, fcase{4, 7, true, p, true, 0, false})
 	}
 	cases = append(cases, fcase{3, 8, false, "", false, 1, false}, fcase{3, 8, false, "", true, 2, false},
-		fcase{3, 8, false, "ggggggggggggggggggggg", false, 0, true}, fcase{9, 5, false, "", true, 0, false})
+		fcase{3, 8, false, "ggggggggggggggggggggg", false, 0, true}, fcase{3, 8, false, "uuuuuuuuuuuuuuuuuuuuu", false, 0, true},
+		fcase{3, 8, false, "gg", false, 0, true}, fcase{3, 8, false, "pg", true, 0, true}, fcase{9, 5, false, "", true, 0, false})
 	for _, c := range cases {
 		c := c
 		wg.Add(1)
@@ -267,9 +280,28 @@ func scenarioFeeder(t *traceWriter, rng *rand.Rand) {
 				preState = s.readState(l.id)
 			}
 			ctx, cancel := context.WithTimeout(context.Background(), timeout)
+			if c.cancel {
+				// plain cancellation (no deadline on the context): the caller goes away after 0.7 s
+				cancel()
+				ctx, cancel = context.WithCancel(context.Background())
+				timeout = 700 * time.Millisecond
+				go func() {
+					time.Sleep(timeout)
+					sw.mu.Lock()
+					sw.cancelledAt = time.Now()
+					sw.mu.Unlock()
+					cancel()
+				}()
+			}
 			t0 := time.Now()
-			ret, err := feeder.FeedOnce(ctx, opts)
+			var ret []byte
+			var err error
+			returned := withDeadline(timeout+3500*time.Millisecond, func() { ret, err = feeder.FeedOnce(ctx, opts) })
 			el := time.Since(t0)
+			if !returned {
+				el = timeout + 4*time.Second
+				err = errors.New("FeedOnce did not return")
+			}
 			cancel()
 			sw.mu.Lock()
 			sw.flush()
@@ -292,9 +324,9 @@ func scenarioFeeder(t *traceWriter, rng *rand.Rand) {
 			if c.realW {
 				postState = s.readState(l.id)
 			}
-			t.line("FD %s origin=%s vname=%s vhash=%d vid=%s cp=%s witness=%s wsize=%d lsize=%d forked=%v pattern=%s cancel=%v hang=%d pre=%s post=%s answers=%s => calls=%s result=%s",
+			t.line("FD %s origin=%s vname=%s vhash=%d vid=%s cp=%s witness=%s wsize=%d lsize=%d forked=%v pattern=%s cancel=%v hang=%d late=%d pre=%s post=%s answers=%s => calls=%s result=%s",
 				s.id, hx([]byte(origin)), hx([]byte(key.verif.Name())), key.verif.KeyHash(), l.rv.vid, hx(fetched), kind, c.wsize, c.lsize, c.forked,
-				"."+c.pattern, c.cancel, hang, preState, postState, strings.Join(sw.answers, ";"), strings.Join(sw.calls, ";"), result)
+				"."+c.pattern, c.cancel, hang, sw.lateCalls, preState, postState, strings.Join(sw.answers, ";"), strings.Join(sw.calls, ";"), result)
 			sw.mu.Unlock()
 			mu.Lock()
 			s.end()
